@@ -81,6 +81,11 @@ Lemma rprocess_done : forall r first last more pl, r_done r = true ->
   rprocess r first last more pl = (r, mkPres [] false 0 false false).
 Proof. intros r first last more pl Hd. unfold rprocess. now rewrite Hd. Qed.
 
+Lemma rprocess_completed_or_done : forall r first last more pl,
+  RComp r \/ r_done r = true ->
+  rprocess r first last more pl = (r, mkPres [] false 0 false false).
+Proof. intros r first last more pl [H|H]; [apply rprocess_completed|apply rprocess_done]; exact H. Qed.
+
 Section Datagram.
   Variable D : list Z.
   Let n := zlen D.
